@@ -91,14 +91,23 @@ Print Assumptions C03_names_all_present_modulo_known.
    ExprName.path of the i-th name is the dotted prefix r.x1...xi, and its canonical path is the resolution of r followed by
    x1...xn (what name resolution follows) *)
 Theorem C03_dotted_chain_parent_links : forall fx env cx r x attrs,
-  build fx env cx (chain_expr (PName r) (x :: attrs)) = Some (GAttribute (GName r ParScope :: chain_names r (x :: attrs))).
+  build fx env cx (chain_expr (PName r false) (x :: attrs)) = Some (GAttribute (GName r ParScope :: chain_names r (x :: attrs))).
 Proof. exact dotted_chain_parent_links. Qed.
 Print Assumptions C03_dotted_chain_parent_links.
 Theorem C03_dotted_chain_canonical_path : forall fx env cx r x attrs g,
-  pm cx = NoParse -> build fx env cx (chain_expr (PName r) (x :: attrs)) = Some g ->
+  pm cx = NoParse -> build fx env cx (chain_expr (PName r false) (x :: attrs)) = Some g ->
   gcanon env g = Some (fold_left (fun p a => (p ++ "." ++ a)%string) (x :: attrs) (resolve env r)).
 Proof. exact dotted_chain_canonical. Qed.
 Print Assumptions C03_dotted_chain_canonical_path.
+
+(* names the expression binds itself (comprehension targets, lambda parameters: the flags the scoping rule [scope_ok] gives,
+   cross-checked against the harness's on every case) have no parent and resolve to themselves; the others to what the module
+   binds *)
+Theorem C03_local_names_have_no_path : forall fx env c id,
+  build fx env c (PName id true) = Some (GName id ParNone) /\ gcanon env (GName id ParNone) = Some id /\
+  build fx env c (PName id false) = Some (GName id ParScope) /\ gcanon env (GName id ParScope) = Some (resolve env id).
+Proof. exact local_name_unresolved. Qed.
+Print Assumptions C03_local_names_have_no_path.
 
 (* what is stored for an expression depends on nothing that was built before it (the model is a function; the correspondence
    check ties the implementation to it on sequences of builds in one process) *)
